@@ -623,6 +623,9 @@ def main(tier, replay=None):
                 # quick: every mutating command on every condition, option variants rotated over the conditions
                 pick = [SCRUB_CMDS[k % len(SCRUB_CMDS)], SCRUB_CMDS[1], SYNC_CMDS[0], SYNC_CMDS[1 + k % (len(SYNC_CMDS) - 1)],
                         FIX_CMDS[0], FIX_CMDS[1], FIX_CMDS[2 + k % (len(FIX_CMDS) - 2)], FIX_CMDS[2 + (k + 3) % (len(FIX_CMDS) - 2)]] + OTHER_CMDS
+                if cond in ('parity_damaged', 'parity_deleted'):
+                    # levels excluded by the filters must stay untouched however wrong they are
+                    pick += [('fix', ['-d', 'd1']), ('fix', ['-f', '/a0']), ('fix', ['-d', 'd2', '-d', '2-parity'])]
                 muts = list(dict.fromkeys((c, tuple(o)) for c, o in pick))
             for cmd, opts in muts:
                 then = None
